@@ -26,6 +26,8 @@ Eval(i) ==
                IN  << <<"error reported", x.err, e.err>>,
                       <<"bytes consumed from the reader", x.consumed, e.consumed>>,
                       <<"key returned", x.key, e.hasKey>>,
+                      <<"sequence of Read calls follows io.ReadFull", IF x.key THEN "key" ELSE "error",
+                          IF e.reads = << >> THEN (IF x.key THEN "key" ELSE "error") ELSE ReadFullRun(e.reads, 1, 0)>>,
                       <<"key pair = NewKeyFromSeed(first 32 bytes); priv = seed || pub; pub = priv.Public()", TRUE, e.coherent>> >>
           [] e.op = "equal" ->
                << <<"Equal", EqualExpected(e.sameType, e.a, e.b), e.got>> >>
